@@ -923,7 +923,19 @@ class Program:
                     for t in tg:
                         if t in self.funcs:
                             self.callers[t].append((fq, n))
-            # decorators that register callbacks count as references, not calls
+            # reading a property runs its getter: x.prop  ==>  call edge to the getter
+            for n in walk_no_nested(f.node):
+                if isinstance(n, ast.Attribute) and isinstance(n.ctx, ast.Load):
+                    bt = self.etype(n.value, f, env)
+                    if bt and bt[0] == "C":
+                        mq = self.find_method(bt[1], n.attr)
+                        if mq and self.funcs[mq].is_property:
+                            syn = ast.Call(func=n, args=[], keywords=[])
+                            ast.copy_location(syn, n)
+                            syn._parent = parent(n)  # type: ignore[attr-defined]
+                            syn._synthetic_property_read = True  # type: ignore[attr-defined]
+                            lst.append((syn, [mq]))
+                            self.callers[mq].append((fq, syn))
             self.calls[fq] = lst
         # module-level calls (e.g. updater = Updater())
         self.module_calls = {}
